@@ -130,6 +130,8 @@ def start_states(kind, args, alpha, depth):
 
 
 def diagrams(kind, alpha, tier):
+    from collections import Counter as _Counter
+
     A = list(alpha)
     big = kind in ("linear", "hh", "hll")
     # L
@@ -158,6 +160,14 @@ def diagrams(kind, alpha, tier):
     if big:
         d = {A[0]: 10**4, A[1]: 2}
         yield ("D", [("update", (d,))], [("add", (k, v)) for k, v in d.items()])
+    # distinct LONG keys that agree on their first 40 bytes (one identity for a heavy-hitters
+    # sketch, two keys for everybody else), in one dict / Counter / list
+    k1, k2 = b"Q" * 40 + b"-first", b"Q" * 40 + b"-second"
+    for dd in ({k1: 5, A[0]: 1, k2: 7}, {k2: 2, k1: 3}):
+        one = 1 if kind == "hll" else None
+        yield ("Dl", [("update", (dict(dd),))], [("add", (k, v)) for k, v in dd.items()])
+        yield ("Dl", [("update", (_Counter(dd),))], [("add", (k, v)) for k, v in dd.items()])
+    yield ("Ll", [("update", ([k1, k2, k1],))], [("add", (k1,)), ("add", (k2,)), ("add", (k1,))])
     # legal argument variants: dict subclasses, numpy integer multiplicities / ngram sizes
     from collections import Counter as _Counter, OrderedDict as _OD
 
